@@ -5,7 +5,7 @@
    `trace ops` every call made on the underlying allocator since (and including) construction, `chks` the allocator's own
    bookkeeping of such a trace (sizes by block id, ids given back). *)
 From Coq Require Import NArith Arith Bool List.
-From CppUVerif Require Import gen.Gen_C18 C18_Model C18_Lists C18_Inv C18_Sim C18_Proofs C18_Hist C18_ModelG C18_GInv C18_GSim C18_GProofs C18_ModelE C18_EInv C18_EBooks C18_EProofs C18_EThms.
+From CppUVerif Require Import gen.Gen_C18 C18_Model C18_Lists C18_Inv C18_Sim C18_Proofs C18_Hist C18_ModelG C18_GInv C18_GSim C18_GProofs C18_ModelE C18_EInv C18_EBooks C18_EProofs C18_EThms C18_ModelW C18_WProofs.
 Import ListNotations.
 Local Open Scope N_scope.
 
@@ -16,9 +16,50 @@ Local Open Scope N_scope.
    no buffer handed out overlaps one in use, capacity >= request, reuse only within the size class, blocks go back at most once,
    with their size, to the allocator they came from and never while in use, clearCache returns every idle block, clearAll
    everything obtained since construction, destruction the node array, and the first unknown release (and only it) warns *)
-Theorem C18_run_meets_spec : forall s, yvalid s = true -> yspec s (yrun s) = true.
-Proof. exact yrun_meets_yspec. Qed.
+Theorem C18_run_meets_spec : forall s, zvalid s = true -> zspec s (zrun s) = true.
+Proof. exact zrun_meets_zspec. Qed.
 Print Assumptions C18_run_meets_spec.
+
+(* (zscenario = the three modes above, or mode 4 -- C18_ModelW: the one-time WARNING PRINTED THROUGH THE CACHE.  The current
+   test's output builds strings while it prints: at every print it requests a buffer g bytes larger and releases its old one --
+   which was allocated before the cache came (a foreign release made from inside the print) or by the cache.  The test requests,
+   releases, releases foreign buffers of any size and prints.  Every call on the cache, the output's included, is judged by the
+   bare cache's oracle -- so a second warning, e.g. from the release the print itself makes, is refused -- and the output must have
+   been entered exactly once per print of the test plus once for the one warning, nested at most once.) *)
+Theorem C18_warnprint_run_meets_spec : forall s, wvalid s = true -> wspec s (wrun s) = true.
+Proof. exact wrun_meets_wspec. Qed.
+Print Assumptions C18_warnprint_run_meets_spec.
+
+(* the flag is set by the very release that warns, BEFORE the print: in the state that release leaves behind no history of
+   calls whatever -- the requests and releases the output makes while the warning is printed, foreign or not, and all later
+   ones -- warns again *)
+Theorem C18_warnprint_flag_set_before_print : forall st p n st1 x, dealloc st p n = (st1, x) -> o_warn x = true ->
+  s_warned st = false /\ s_warned st1 = true /\ forall ops, warns (snd (exec st1 ops)) = O.
+Proof. exact flag_set_before_print. Qed.
+Print Assumptions C18_warnprint_flag_set_before_print.
+
+(* a pointer the cache never handed out is an unknown release in every state, for every size (every class, non-cached) *)
+Theorem C18_warnprint_foreign_release_is_unknown : forall st k n, dealloc st (PFor k) n = unknown_release st.
+Proof. exact foreign_release_is_unknown. Qed.
+Print Assumptions C18_warnprint_foreign_release_is_unknown.
+
+(* at most one warning per object in EVERY history of mode 4 (valid or not), releases made by the print included *)
+Theorem C18_warnprint_one_warning : forall s, (iwarns (wo_items (wrun s)) <= 1)%nat.
+Proof. exact wrun_one_warning. Qed.
+Print Assumptions C18_warnprint_one_warning.
+
+(* printing is nested at most once *)
+Theorem C18_warnprint_nesting : forall s, wvalid s = true -> wo_depth (wrun s) <= 2.
+Proof. exact wrun_nesting. Qed.
+Print Assumptions C18_warnprint_nesting.
+
+(* the red-team variant (flag set only after the print): its calls up to the cut at nesting depth 3 are refused, whatever
+   depth and number of prints are reported *)
+Theorem C18_warnprint_late_flag_refuted : wvalid late_scn = true /\
+  wspec late_scn {| wo_items := late_flag_items 20 40 30; wo_depth := 3; wo_prints := 3 |} = false /\
+  (forall d p, wspec late_scn {| wo_items := late_flag_items 20 40 30; wo_depth := d; wo_prints := p |} = false).
+Proof. exact late_flag_refuted. Qed.
+Print Assumptions C18_warnprint_late_flag_refuted.
 
 (* the three parts of it: the bare cache ... *)
 Theorem C18_cache_run_meets_spec : forall s, valid s = true -> spec s (run s) = true.
